@@ -22,7 +22,7 @@ struct FaultyMotor {
 impl Settable<f32, E> for FaultyMotor {
     fn impl_set(&mut self, value: f32) -> NothingOrError<E> {
         if let Some(k) = self.reject.get() {
-            return Err(Error::Other(k));
+            return Err(err_of(k));
         }
         self.log.borrow_mut().push(value.to_bits());
         Ok(())
@@ -65,7 +65,7 @@ impl Updatable<E> for RecordingHistory {
     fn update(&mut self) -> NothingOrError<E> {
         self.updates.set(self.updates.get() + 1);
         match self.update_err.get() {
-            Some(k) => Err(Error::Other(k)),
+            Some(k) => Err(err_of(k)),
             None => Ok(()),
         }
     }
@@ -167,7 +167,7 @@ pub fn execute(plan: &Plan, ctx: &mut Ctx) {
                 }
                 "CLKE" => {
                     clk = Err(op.arg(0) as u8);
-                    clock.set(Err(Error::Other(op.arg(0) as u8)));
+                    clock.set(Err(err_of(op.arg(0) as u8)));
                     None
                 }
                 "REJ" => {
@@ -197,9 +197,9 @@ pub fn execute(plan: &Plan, ctx: &mut Ctx) {
                     let k = op.arg(1) as u8;
                     fg_script[s] = Fg::Err(k);
                     match s {
-                        0 | 1 => fg_f[s].set(Err(Error::Other(k))),
-                        2 => fg_s.set(Err(Error::Other(k))),
-                        _ => fg_c.set(Err(Error::Other(k))),
+                        0 | 1 => fg_f[s].set(Err(err_of(k))),
+                        2 => fg_s.set(Err(err_of(k))),
+                        _ => fg_c.set(Err(err_of(k))),
                     }
                     None
                 }
@@ -249,7 +249,7 @@ pub fn execute(plan: &Plan, ctx: &mut Ctx) {
                         0 => {
                             let r = norm_unit(&motor.set(f32::from_bits(v)));
                             let w = match motor_rej.get() {
-                                Some(k) => Some(Er::Other(k)),
+                                Some(k) => Some(er_of(k)),
                                 None => {
                                     motor_expect.push(v);
                                     model[0].last = Some(v);
@@ -298,13 +298,13 @@ pub fn execute(plan: &Plan, ctx: &mut Ctx) {
                         match followed {
                             Fg::None => {}
                             Fg::Err(e) => {
-                                want = Some(Er::Other(e));
+                                want = Some(er_of(e));
                                 break;
                             }
                             Fg::Some(_, v) => {
                                 if k == 0 {
                                     if let Some(r) = motor_rej.get() {
-                                        want = Some(Er::Other(r));
+                                        want = Some(er_of(r));
                                         break;
                                     }
                                     motor_expect.push(v);
@@ -344,7 +344,7 @@ pub fn execute(plan: &Plan, ctx: &mut Ctx) {
                             offset = o;
                             None
                         }
-                        (Err(e), Err(w)) if Er::from_rrtk(e) == Er::Other(w) => None,
+                        (Err(e), Err(w)) if Er::from_rrtk(e) == er_of(w) => None,
                         (m, w) => Some(format!("adapter_constructor|form{}|constructor returned {}, expected offset/err {:?}", form, if m.is_ok() { "Ok".to_string() } else { "Err".to_string() }, w)),
                     }
                 }
@@ -370,7 +370,7 @@ pub fn execute(plan: &Plan, ctx: &mut Ctx) {
                             mp_offset = o;
                             None
                         }
-                        (Err(e), Err(w)) if Er::from_rrtk(e) == Er::Other(w) => None,
+                        (Err(e), Err(w)) if Er::from_rrtk(e) == er_of(w) => None,
                         (m, w) => Some(format!("adapter_constructor|motion_profile_form{}|constructor returned {}, expected offset/err {:?}", op.arg(0), if m.is_ok() { "Ok" } else { "Err" }, w)),
                     }
                 }
@@ -378,7 +378,7 @@ pub fn execute(plan: &Plan, ctx: &mut Ctx) {
                     if let Some(a) = mp_adapter.as_ref() {
                         let got = norm(&a.get());
                         let want = match clk {
-                            Err(e) => Out::Err(Er::Other(e)),
+                            Err(e) => Out::Err(er_of(e)),
                             Ok(now) => match <MotionProfile as History<Command, E>>::get(&reference_profile, Time(now + mp_offset)) {
                                 Some(d) => Out::Some(now, d.value.to_val()),
                                 None => Out::None,
@@ -405,7 +405,7 @@ pub fn execute(plan: &Plan, ctx: &mut Ctx) {
                                 offset = op.arg(0) - now;
                                 None
                             }
-                            Err(e) => Some(Er::Other(e)),
+                            Err(e) => Some(er_of(e)),
                         };
                         if r != want {
                             return Some(format!("adapter_set_time|set_time|returned {:?}, expected {:?}", r, want));
@@ -431,7 +431,7 @@ pub fn execute(plan: &Plan, ctx: &mut Ctx) {
                         let cbefore = clock.updates.get();
                         let r = norm_unit(&a.update());
                         // the history is updated first, then the clock; the first error is returned
-                        let want = hupderr.get().or(clock.update_err.get()).map(Er::Other);
+                        let want = hupderr.get().or(clock.update_err.get()).map(er_of);
                         let clock_updates = clock.updates.get() - cbefore;
                         if hupderr.get().is_none() && clock_updates != 1 {
                             return Some(format!("adapter_update|clock|the adapter updated its clock {} times", clock_updates));
@@ -449,7 +449,7 @@ pub fn execute(plan: &Plan, ctx: &mut Ctx) {
                         let new_asked: Vec<i64> = asked.borrow()[n0..].to_vec();
                         match clk {
                             Err(e) => {
-                                if got != Out::Err(Er::Other(e)) {
+                                if got != Out::Err(er_of(e)) {
                                     return Some(format!("adapter_get|clock_error|get returned {} although the clock fails with E{}", got.show(), e));
                                 }
                             }
@@ -470,7 +470,7 @@ pub fn execute(plan: &Plan, ctx: &mut Ctx) {
                 "CG" => {
                     let got = norm(&cg.get());
                     let want = match clk {
-                        Err(e) => Out::Err(Er::Other(e)),
+                        Err(e) => Out::Err(er_of(e)),
                         Ok(now) => Out::Some(now, Val::F(fbits(f32::from_bits(cg_value)))),
                     };
                     if got != want {
@@ -485,7 +485,7 @@ pub fn execute(plan: &Plan, ctx: &mut Ctx) {
                     };
                     let want = match fg_script[0] {
                         Fg::None => Err(Er::FromNone),
-                        Fg::Err(e) => Err(Er::Other(e)),
+                        Fg::Err(e) => Err(er_of(e)),
                         Fg::Some(t, _) => Ok(t),
                     };
                     if got != want {
@@ -633,13 +633,13 @@ pub fn generate(prop: &str, tier: Tier, rng: &mut Rng, seed: u64, run: u64) -> P
             0 | 1 => plan.push("CLK", &[tval(rng)]),
             2 => {
                 if rng.chance(fault * 2.0) {
-                    plan.push("CLKE", &[rng.range(1, 2)]);
+                    plan.push("CLKE", &[rng.range(1, 3)]);
                 } else {
                     plan.push("CLK", &[tval(rng)]);
                 }
             }
             3 | 4 => plan.push("SET", &[s, fb(uniq), tval(rng)]),
-            5 => plan.push("REJ", &[if rng.chance(0.5 + fault) { rng.range(1, 2) } else { 0 }]),
+            5 => plan.push("REJ", &[if rng.chance(0.5 + fault) { rng.range(1, 3) } else { 0 }]),
             6 => {
                 // follow the first or the alternative getter (following twice replaces the getter)
                 let alt = rng.below(2) as i64;
@@ -655,7 +655,7 @@ pub fn generate(prop: &str, tier: Tier, rng: &mut Rng, seed: u64, run: u64) -> P
                 if r < fault {
                     plan.push("FGN", &[s]);
                 } else if r < 2.0 * fault {
-                    plan.push("FGE", &[s, rng.range(1, 2)]);
+                    plan.push("FGE", &[s, rng.range(1, 3)]);
                 } else {
                     plan.push("FG", &[s, tval(rng), fb(uniq)]);
                 }
@@ -673,9 +673,9 @@ pub fn generate(prop: &str, tier: Tier, rng: &mut Rng, seed: u64, run: u64) -> P
                     plan.push("HABS", &[rng.below(2) as i64]);
                 }
                 if rng.chance(0.15) {
-                    plan.push("HUERR", &[if rng.chance(0.5) { 0 } else { rng.range(1, 2) }]);
+                    plan.push("HUERR", &[if rng.chance(0.5) { 0 } else { rng.range(1, 3) }]);
                     if rng.chance(0.5) {
-                        plan.push("CKUERR", &[if rng.chance(0.5) { 0 } else { rng.range(1, 2) }]);
+                        plan.push("CKUERR", &[if rng.chance(0.5) { 0 } else { rng.range(1, 3) }]);
                     }
                     plan.push("HUPD", &[]);
                 }
